@@ -12,6 +12,10 @@ InDomain(in, obs) == IsScript(in) => InDomainOuts(Eff(in))
 Expected(in) ==
   IF IsScript(in) THEN RefExit(Eff(in))
   ELSE IF in.kind = "notfound" THEN [started |-> 0, exit |-> 127]
+  \* ... which matters only when the command is to be run: -r and no input runs nothing (every invocation - there is
+  \* none - exited 0); an input error found before the first dispatch is an input error
+  ELSE IF in.kind = "notfound_norun" THEN [started |-> 0, exit |-> 0]
+  ELSE IF in.kind = "notfound_quote" THEN [started |-> 0, exit |-> 1]
   \* cannot be executed: no permission, a directory, a path through a regular file, a link to itself
   ELSE IF in.kind \in {"notexec", "notexec_dir", "notexec_notdir", "notexec_loop"} THEN [started |-> 0, exit |-> 126]
   ELSE [exit |-> 1]     \* xargs' own usage and input errors
